@@ -534,9 +534,10 @@ Varable failures: {var_failed}
                 dt = np.diff(times)
                 if not (dt[0] == dt).all():
                     warn('New time is unstructured')
-                outf.TSTEP = int(
-                    (datetime.datetime(1900, 1, 1, 0) +
-                     dt[0]).strftime('%H%M%S'))
+                # HHMMSS with hours that may exceed 23 (e.g. 240000)
+                dts = int(dt[0].total_seconds())
+                outf.TSTEP = (dts // 3600 * 10000 + dts % 3600 // 60 * 100 +
+                              dts % 60)
 
         outf.updatemeta()
         return outf
